@@ -115,6 +115,29 @@ func processShape(fd *ast.FuncDecl) string {
 		return true
 	})
 	if elseBlock == nil {
+		// the same branch written with an early return: `if found { AddRef; return }` followed by the emitting statements
+		for i, st := range fd.Body.List {
+			is, ok := st.(*ast.IfStmt)
+			if !ok || is.Else != nil || len(is.Body.List) == 0 {
+				continue
+			}
+			if _, ret := is.Body.List[len(is.Body.List)-1].(*ast.ReturnStmt); !ret {
+				continue
+			}
+			hasRef := false
+			ast.Inspect(is.Body, func(m ast.Node) bool {
+				if consumerCall(m) == "AddRef" {
+					hasRef = true
+				}
+				return true
+			})
+			if hasRef {
+				elseBlock = &ast.BlockStmt{List: fd.Body.List[i+1:]}
+				break
+			}
+		}
+	}
+	if elseBlock == nil {
 		return ".unknown " + leanStr("no `if found { AddRef } else { … }`")
 	}
 	var shape []string
